@@ -56,7 +56,11 @@ def driver_sleep(_secs):
                 pass
         LOG.close()
         os._exit(70)
-    die, sig, fchange = hist[tick[0]]
+    entry = hist[tick[0]]
+    die, sig, fchange = entry[0], entry[1], entry[2]
+    # events to deliver while the manager handles this tick: right after it found its action queue drained
+    # (i.e. between processing the queue and the health check)
+    pending_mid[:] = [m for m in (entry[3] if len(entry) > 3 else []) if m[0] == "drained"]
     tick[0] += 1
     log("tick", tick[0], [w.pid for w in mgr.workers])
     for slot in die:
@@ -77,10 +81,48 @@ def driver_sleep(_secs):
     time.sleep(0.06)  # let the queue feeder thread flush
 
 
+pending_mid = []
 pm.sleep = driver_sleep
 args = WorkerArgs(broker="b:b", modules=[], workers=workers, max_fails=max_fails)
 mgr = pm.ProcessManager(args, worker_function=worker_fn)
-ret = mgr.start()
+_orig_empty = mgr.action_queue.empty
+
+
+def _empty():
+    r = _orig_empty()
+    if r and pending_mid:
+        evs, pending_mid[:] = list(pending_mid), []
+        for _, kind, arg in evs:
+            if kind == "die":
+                pid = mgr.workers[arg].pid
+                log("driver_kill", arg, pid)
+                try:
+                    os.kill(pid, signal.SIGKILL)
+                except OSError:
+                    pass
+                t0 = time.time()
+                while not is_dead(pid) and time.time() - t0 < 3:
+                    time.sleep(0.005)
+            elif kind == "sig":
+                log("driver_signal_mid", arg)
+                os.kill(os.getpid(), {"HUP": signal.SIGHUP, "INT": signal.SIGINT, "TERM": signal.SIGTERM}[arg])
+    return r
+
+
+mgr.action_queue.empty = _empty
+try:
+    ret = mgr.start()
+except BaseException as exc:  # noqa: BLE001
+    log("crash", repr(exc), [w.pid for w in mgr.workers])
+    LOG.close()
+    time.sleep(0.2)
+    left = [w.pid for w in mgr.workers if not is_dead(w.pid)]
+    for w in mgr.workers:
+        try:
+            os.kill(w.pid, signal.SIGKILL)
+        except OSError:
+            pass
+    os._exit(4)
 log("return", ret, [w.pid for w in mgr.workers])
 LOG.close()
 # children of a real deployment are interrupted by the manager; give them a moment, then make sure
